@@ -339,7 +339,7 @@ pub fn c13_arithmetic_endpoints() {
     let [c1, c2] = arithmetic_crossover(&[p], &[q], &[al]);
     assert!(c1.len() == 1 && c2.len() == 1, "child length differs from the parents' length");
     let (w1, w2) = if one { (p, q) } else { (q, p) };
-    assert!(c1[0] == w1 && c2[0] == w2, "arithmetic crossover: at alpha in {0,1} the children must be the parental genes");
+    assert!(c1[0] == w1 && c2[0] == w2, "arithmetic crossover: at alpha in {{0,1}} the children must be the parental genes");
 }
 /// the stated combination bit-exactly for every alpha (two float multiplier circuits: expensive)
 /// @verif anchor=arithmetic_crossover tier=thorough bound="length 1 (per coordinate); all f64 values and alphas"
